@@ -130,10 +130,9 @@ func TestC06(t *testing.T) {
 		"Node(InKey): only authenticated frames surface as EventFrame. distinct = distinct streams / emitted frames")
 	rep.Assume("crypto/sha256 is the trusted base; the reference hashes the wire image, the implementation hashes field by field")
 	seed := vh.Seed()
-	all, err := shippedMessages()
-	if err != nil {
-		t.Fatal(err)
-	}
+	all := shippedOrViolation(rep, t)
+	var err error
+	_ = err
 	msgs := pickMsgs(vh.Sub(seed, "c06-msgs"), all, 25)
 	for _, mi := range all { // the largest messages: signed frames of the maximal size (280 bytes)
 		if mi.Layout.SizeExt == 255 {
